@@ -20,7 +20,7 @@ CHECKS = {
     text="Stateless model checking of the real AsyncLogger (minimum buffer 100) under the cooperative scheduler: all schedules (<=2 preemptions, thorough 3) of 2-3 producers x 1-2 operations (events, events below the logger's level, raw writes) racing the worker at occupancies 0/98/99/100 for the three overflow policies, with a free, token-gated or parked (slow appender) worker; after Stop: no item twice, no unknown item, delivered + GetDiscardCounter() == submitted, Block => counter 0 and everything delivered.",
     note=SCHED_NOTE, technique="stateless model checking (controlled scheduler, preemption-bounded DFS over the instrumented implementation)", design="DESIGN.md section 3 C04"),
  "C05": dict(
-    text="Stateless model checking: (a) AsyncLogger.Stop against the draining worker at occupancies 0,1,2,50,98,99,100 (thorough: every 0..100) x 3 policies x worker idle / mid-append / parked behind a gate a helper opens: no deadlock, everything accepted is at the appender when Stop returns; (b) every logger kind reachable through Refresh (sync, async, Console, File, Discard, RollingFile x separate x async x policies) on the in-memory filesystem: events + raw write, Destroy (twice): everything accepted is readable from the target, no descriptor left; (c) RollingFileAppender under rotation: no descriptor left after Stop (called twice), at most 2 descriptors whenever no write is in progress (one known finding: interleaved rotations).",
+    text="Stateless model checking: (a) AsyncLogger.Stop against the draining worker at occupancies 0,1,2,50,98,99,100 (thorough: every 0..100) x 3 policies x worker idle / mid-append / parked behind a gate a helper opens: no deadlock, everything accepted is at the appender when Stop returns; (b) every logger kind reachable through Refresh (sync, async, Console, File, Discard, RollingFile x separate x async x policies) on the in-memory filesystem: events + raw write, Destroy (twice): everything accepted is readable from the target, no descriptor left; (c) RollingFileAppender under rotation: no descriptor left after Stop (called twice), at most 2 descriptors whenever no write is in progress.",
     note=SCHED_NOTE, technique="stateless model checking (controlled scheduler, preemption/tick-bounded DFS over the instrumented implementation)", design="DESIGN.md section 3 C05"),
  "C06": dict(
     text="Stateless model checking of the real AsyncLogger: the C04 schedules with the per-producer-order oracle (delivered items of one goroutine are a subsequence in submission order, events and raw writes alike) and, with the appender parked for the whole production phase, Discard/DiscardOldest log calls still return (a waiting call is a deadlock outcome).",
@@ -29,7 +29,7 @@ CHECKS = {
     text="Stateless model checking of raw Write through the AsyncLogger with callers that overwrite their buffer after every call: 1-2 writers x 2-3 writes, 1-2 appenders, appender-reference level settings '', ERROR, INFO~WARN, 3 policies, a slow appender; every appender sees each payload exactly once, unaltered, in per-writer order. Sequential part (enumeration): all sequences of <=3 writes over 5 payloads (empty, binary, multi-line, 12 KB) with buffer reuse x sync/async x layout x 1-2 references x level settings, handle identity, Refresh fails for an unconfigured requested name; raw writes through every logger kind (logger-kinds family).",
     note=SCHED_NOTE, technique="stateless model checking (controlled scheduler, preemption-bounded DFS over the instrumented implementation)", design="DESIGN.md section 3 C12"),
  "C13": dict(
-    text="Stateless model checking of the real RollingFileAppender on an in-memory filesystem and virtual clock: all schedules (<=2 preemptions) x all placements of <=2-3 interval boundaries (the clock may cross a boundary at any time.Now call) of 1-2 writers x 2-3 writes, a pre-existing file, a Stop/Start cycle; every id exactly once over all files, file names name.<14 digits>, append-only opens, no write older than its file's name, single writer: a write after a boundary lands in a file of the new interval. Two known findings (writer or rotation suspended across two rotations) are matched by history predicates. Model<->OS: every execution of three conformance scenarios (14 k traces in the quick tier) is replayed call by call against a real temporary directory (same error class per call, same directory listing and file contents at the end).",
+    text="Stateless model checking of the real RollingFileAppender on an in-memory filesystem and virtual clock: all schedules (<=2 preemptions) x all placements of <=2-3 interval boundaries (the clock may cross a boundary at any time.Now call) of 1-2 writers x 2-3 writes, a pre-existing file, a Stop/Start cycle; every id exactly once over all files, file names name.<14 digits>, append-only opens, no write older than its file's name, single writer: a write after a boundary lands in a file of the new interval. Model<->OS: every execution of three conformance scenarios (14 k traces in the quick tier) is replayed call by call against a real temporary directory (same error class per call, same directory listing and file contents at the end).",
     note=SCHED_NOTE, technique="stateless model checking (controlled scheduler + virtual clock, preemption/tick-bounded DFS over the instrumented implementation)", design="DESIGN.md section 3 C13"),
  "C19": dict(
     text="Fault enumeration on top of the C13 model checking: every filesystem call (open, write, sync, close, readdir, remove) may fail (ENOENT / EIO / short write) within a fault budget of 2 (thorough 3), combined with boundary placements and schedules: no panic, no blocked call; when only creations fail nothing is lost and a later interval attempts creation again.",
